@@ -6,6 +6,8 @@
 """
 from __future__ import annotations
 
+import asyncio
+
 import itertools
 
 from ..common import B, Ctx
@@ -75,6 +77,9 @@ def apply_state(AC, d, s, rng=None):
         sets = sets[1:]
     if rng is not None:
         rng.shuffle(sets)
+        # the deprecated spellings are public setters too (eco_mode, turbo_mode, sleep_mode, freeze_protection_mode): used for a quarter of the calls
+        alias = {"eco": "eco_mode", "turbo": "turbo_mode", "sleep": "sleep_mode", "freeze_protection": "freeze_protection_mode"}
+        sets = [(alias[n], v) if n in alias and rng.random() < 0.25 else (n, v) for n, v in sets]
     for name, value in sets:
         setattr(d, name, value)
 
@@ -137,7 +142,7 @@ def collect_contexts(ctx: Ctx, states):
 
         async def go():
             await d.get_capabilities()
-            for s in states:
+            for si, s in enumerate(states):
                 pending = []
                 if cname == "props_pending":
                     for name, dom in rng.sample([("vertical_swing_angle", list(AC.SwingAngle)), ("horizontal_swing_angle", list(AC.SwingAngle)),
@@ -158,6 +163,47 @@ def collect_contexts(ctx: Ctx, states):
                 devst = [i for k, i in ac.log if k == "set_state"]
                 vectors.append({"req": s, "frame": B(frames[0]) if frames else [], "devstate": devst[0] if devst else {}, "exc": exc or "none", "n40": len(frames),
                                 "context": cname, "pending": pending})
+                if exc is None and si % 3 == 0 and cname == "props_pending":       # (a unit without custom fan speeds has raw speeds coerced by the poll: finding D12's mechanism)
+                    # the unit is now in the requested state; the client polls it (state, and property values such as the unit's iECO switch) and the
+                    # same request is applied once more: the command still carries the requested state
+                    n1 = len(dev.rx)
+                    ac.log.clear()
+                    try:
+                        await d.refresh()
+                        await d.apply()
+                        exc = None
+                    except Exception as e:  # noqa: BLE001
+                        exc = type(e).__name__
+                    frames = [r["frame"] for r in dev.rx[n1:] if r.get("ok") and r["frame"][10:11] == b"\x40"]
+                    devst = [i for k, i in ac.log if k == "set_state"]
+                    vectors.append({"req": dict(s, display=None) if False else s, "frame": B(frames[0]) if frames else [], "devstate": devst[0] if devst else {}, "exc": exc or "none",
+                                    "n40": len(frames), "context": cname + ", applied again after a refresh", "pending": []})
+                elif exc is None and si % 3 == 1:
+                    # overlapping applies: a second request is made and applied while the first apply() is still waiting for the unit's answer; each
+                    # command carries the state requested when ITS apply() was called
+                    s2 = dict(rand_state(rng), beep=s.get("beep", False))
+                    slow = {"on": True}
+                    orig_respond = dev.respond
+                    dev.respond = lambda tr, packets: [loop.call_later(0.05, tr.feed, q) for q in packets]
+                    n1 = len(dev.rx)
+                    ac.log.clear()
+                    try:
+                        apply_state(AC, d, s, rng)
+                        t1 = asyncio.ensure_future(d.apply())
+                        await asyncio.sleep(0.01)
+                        apply_state(AC, d, s2, rng)
+                        t2 = asyncio.ensure_future(d.apply())
+                        await asyncio.gather(t1, t2, return_exceptions=True)
+                        await asyncio.sleep(1)
+                    finally:
+                        dev.respond = orig_respond
+                    frames = [r["frame"] for r in dev.rx[n1:] if r.get("ok") and r["frame"][10:11] == b"\x40"]
+                    devst = [i for k, i in ac.log if k == "set_state"]
+                    for j, want in enumerate((s, s2)):
+                        vectors.append({"req": want, "frame": B(frames[j]) if j < len(frames) else [], "devstate": devst[j] if j < len(devst) else {}, "exc": "none",
+                                        "n40": 1 if j < len(frames) else 0, "context": cname + f", apply {j + 1} of two overlapping applies", "pending": []})
+                    if d._lan._protocol:
+                        d._lan._disconnect()
         vloop.run(loop, go())
     return vectors
 
